@@ -5,6 +5,7 @@ ENV = os.path.join(os.path.dirname(os.path.dirname(os.path.abspath(__file__))), 
 SL = "bindgen/codegen/struct_layout.rs"
 LY = "bindgen/ir/layout.rs"
 HP = "bindgen/codegen/helpers.rs"
+CGM = "bindgen/codegen/mod.rs"
 
 BIG = "0x1000_0000_0000_0000"   # 2^60: clang object-size limit is far below
 
@@ -241,7 +242,7 @@ impl<'a> StructLayoutTracker<'a> {
 UNIT = {
     "name": "layout",
     "env": [os.path.join(ENV, "layout_env.rs")],
-    "declared_trusted": {r"external_body": 22, r"\bexternal\b": 0},
+    "declared_trusted": {r"external_body": 27, r"\bexternal\b": 0},
     "items": [
         {"kind": "const", "file": "bindgen/ir/ty.rs", "name": "RUST_DERIVE_IN_ARRAY_LIMIT"},
         {"kind": "const", "file": SL, "name": "MAX_GUARANTEED_ALIGN"},
@@ -469,6 +470,66 @@ pub proof fn lemma_blob(l: Layout)
              "self.max_field_align < layout.align ==> r",
              "self.max_field_align >= 16 ==> r",
              "r ==> (self.max_field_align >= 16 || self.max_field_align < layout.align)",
+         ]},
+        {"kind": "fn", "file": SL, "name": "is_rust_union", **TR, "ret": "r", "ensures": ["r == self.is_rust_union"]},
+        # ---- the tail of <CompInfo as CodeGenerator>::codegen that completes size and alignment (statement, R18)
+        {"kind": "fn", "file": CGM, "name": "comp_tail_layout", "impl": r"^impl CodeGenerator for CompInfo$", "ret": "r_unit",
+         "closure": {"enclosing": "codegen", "anchor": "if is_opaque { match layout {", "nth": 0, "stmt": True,
+                     "signature": "fn comp_tail_layout<'a>(ctx: &BindgenContext, is_opaque: bool, is_union: bool, zero_sized: bool, forward_decl: bool, layout: Option<Layout>, struct_layout: &mut StructLayoutTracker<'a>, fields: &mut Vec<Tok>, packed: &mut bool, explicit_align: &mut Option<usize>)",
+                     "prefix": "{", "suffix": "}"},
+         "subst": [
+             ("helpers::blob(", "blob(", 2, "module path"),
+             ("quote! { pub _bindgen_opaque_blob: #ty , }", "q_blob_field(&ty)", 1, "R4"),
+             ("quote! { pub bindgen_union_field: #ty, }", "q_union_field(&ty)", 1, "R4"),
+             ("layout.and_then(|layout| struct_layout.pad_struct(layout))", "(match layout { Some(layout) => struct_layout.pad_struct(layout), None => None })", 1, "R7"),
+             ("explicit_align = Some(", "*explicit_align = Some(", 3, "R18 captured by mutable reference"),
+             ("packed = true;", "*packed = true;", 1, "R18 captured by mutable reference"),
+         ],
+         "requires": ["old(struct_layout).inv()", "old(struct_layout).small()", "layout.is_some() ==> valid_layout(layout.unwrap())"],
+         "ensures": [
+             "final(struct_layout).inv() && final(struct_layout).same_config(old(struct_layout))",
+             # opaque with a layout: exactly one more field, a blob of exactly the C size and alignment, plus repr(align)
+             "is_opaque && layout.is_some() ==> final(fields)@.len() == old(fields)@.len() + 1 && final(fields)@.subrange(0, old(fields)@.len() as int) == old(fields)@ "
+             "&& ty_align(field_ty(final(fields)@.last())) == blob_align(layout.unwrap()) && ty_size(field_ty(final(fields)@.last())) == blob_size(layout.unwrap()) "
+             "&& *final(explicit_align) == Some(layout.unwrap().align) && *final(packed) == *old(packed)",
+             # struct: alignment. repr(align(N)) (or packed for N == 1) whenever the fields alone would under-align
+             "!is_opaque && !is_union && !zero_sized && layout.is_some() && final(struct_layout).max_field_align < layout.unwrap().align ==> "
+             "(if layout.unwrap().align == 1 { *final(packed) } else { *final(explicit_align) == Some(layout.unwrap().align) })",
+             "!is_opaque && !is_union && !zero_sized && layout.is_some() && final(struct_layout).max_field_align >= layout.unwrap().align && final(struct_layout).max_field_align < 16 ==> "
+             "*final(packed) == *old(packed) && *final(explicit_align) == *old(explicit_align)",
+             # struct: size. The fields plus the padding appended here, rounded to the alignment, give the C size (size theorem of pad_struct)
+             "!is_opaque && !is_union && !zero_sized && layout.is_some() && old(struct_layout).pad_region(layout.unwrap()) && !old(struct_layout).pad_f4(layout.unwrap()) ==> "
+             "(final(fields)@.len() == old(fields)@.len() && align_up(old(struct_layout).latest_offset as int, layout.unwrap().align as int) == layout.unwrap().size) || "
+             "(final(fields)@.len() == old(fields)@.len() + 1 && final(fields)@.subrange(0, old(fields)@.len() as int) == old(fields)@ && align_up(end_after(old(struct_layout).latest_offset as int, Some(final(fields)@.last())), layout.unwrap().align as int) == layout.unwrap().size)",
+             # union: alignment attribute as for structs; a non-Rust union is one blob of exactly the C size and alignment
+             "!is_opaque && (is_union || zero_sized) && is_union && !forward_decl && layout.is_some() && old(struct_layout).max_field_align < layout.unwrap().align ==> *final(explicit_align) == Some(layout.unwrap().align)",
+             "!is_opaque && (is_union || zero_sized) && is_union && !forward_decl && layout.is_some() && !old(struct_layout).is_rust_union ==> final(fields)@.len() == old(fields)@.len() + 1 "
+             "&& ty_align(field_ty(final(fields)@.last())) == blob_align(layout.unwrap()) && ty_size(field_ty(final(fields)@.last())) == blob_size(layout.unwrap())",
+             # nothing else is touched
+             "(!is_opaque && (is_union || zero_sized) && !(is_union && !forward_decl)) || layout.is_none() ==> final(fields)@ == old(fields)@ && *final(packed) == *old(packed) && *final(explicit_align) == *old(explicit_align)",
+         ]},
+        # ---- how the explicit alignment is realised (statement, R18)
+        {"kind": "fn", "file": CGM, "name": "emit_explicit_align", "impl": r"^impl CodeGenerator for CompInfo$", "ret": "r_unit",
+         "closure": {"enclosing": "codegen", "anchor": "if let Some(explicit) = explicit_align {", "nth": 0, "stmt": True,
+                     "signature": "fn emit_explicit_align(has_bitfields: bool, explicit_align: Option<usize>, fields: &mut Vec<Tok>, attributes: &mut Vec<Tok>)",
+                     "prefix": "{", "suffix": "}"},
+         "subst": [
+             ("self.has_bitfields()", "has_bitfields", 1, "R18 captured value"),
+             ("quote! { u64 }", "q_uint(8)", 1, "R4"), ("quote! { u32 }", "q_uint(4)", 1, "R4"),
+             ("quote! { u16 }", "q_uint(2)", 1, "R4"), ("quote! { u8 }", "q_uint(1)", 1, "R4"),
+             ("quote! { pub _bindgen_align: [#align_ty; 0], }", "q_align_field(&align_ty)", 1, "R4"),
+             ("let explicit = helpers::ast_ty::int_expr(explicit as i64);", "", 1, "R4 (the literal is the number)"),
+             ("quote! { #[repr(align(#explicit))] }", "q_repr_align(explicit)", 1, "R4"),
+         ],
+         "proof_before": [("let align_ty = match explicit {", "reveal_with_fuel(is_pow2, 5);")],
+         "requires": ["explicit_align.is_some() ==> is_pow2(explicit_align.unwrap() as int)"],
+         "ensures": [
+             "explicit_align.is_none() ==> final(fields)@ == old(fields)@ && final(attributes)@ == old(attributes)@",
+             # the struct ends up aligned to exactly the requested value: a #[repr(align(N))] attribute, or a
+             # leading zero-length array of a primitive whose alignment is N
+             "explicit_align.is_some() ==> (final(attributes)@ == old(attributes)@.push(final(attributes)@.last()) && repr_align_of(final(attributes)@.last()) == Some(explicit_align.unwrap() as int) && final(fields)@ == old(fields)@) "
+             "|| (final(attributes)@ == old(attributes)@ && final(fields)@.len() == old(fields)@.len() + 1 && final(fields)@ == old(fields)@.insert(0, final(fields)@[0]) "
+             "&& zero_len_array_of(final(fields)@[0]).is_some() && ty_align(zero_len_array_of(final(fields)@[0]).unwrap()) == explicit_align.unwrap())",
          ]},
     ],
 }
